@@ -5,6 +5,7 @@ import (
 	"encoding/hex"
 	"encoding/json"
 	"fmt"
+	"strings"
 
 	stun "github.com/pion/stun/v3"
 
@@ -193,6 +194,34 @@ func init() {
 					}
 					signed := append([]byte(nil), b.Raw...)
 					report(signed, nil, "fresh")
+					// the same with a Message whose struct fields are out of step with its bytes at the time of the call
+					// (Type / TransactionID assigned directly, or decoded from a type word with the two leading bits set):
+					// the fingerprint covers the bytes, and the setter writes nothing but its attribute and the length
+					for variant := 0; variant < 2; variant++ {
+						d := new(stun.Message)
+						src := append([]byte(nil), pre...)
+						if variant == 1 {
+							src[0] |= 0xC0
+						}
+						if _, err := d.Write(src); err != nil {
+							continue
+						}
+						if variant == 0 {
+							d.TransactionID = [12]byte{0xEE, 0xEE, 0xEE, 0xEE, 0xEE, 0xEE, 0xEE, 0xEE, 0xEE, 0xEE, 0xEE, 0xEE}
+							d.Type = stun.BindingError
+						}
+						_ = stun.Fingerprint.AddTo(d)
+						sp := append([]byte(nil), src...)
+						sp[2], sp[3] = byte(l>>8), byte(l)
+						cv := ref.Fingerprint(sp)
+						want := append(sp, 0x80, 0x28, 0x00, 0x04, byte(cv>>24), byte(cv>>16), byte(cv>>8), byte(cv))
+						c.Eval(1)
+						if !bytes.Equal(d.Raw, want) {
+							c.Violation("addto-wrong-value/fields-out-of-step", fmt.Sprintf("Fingerprint.AddTo on a Message whose Type/TransactionID fields differ from its bytes (variant %d) left %x, RFC 5389 s15.5 prescribes %x", variant, clip(d.Raw), clip(want)), c05Case{Hex: hex.EncodeToString(src), Orig: fmt.Sprint("out-of-step:", variant)})
+							bad = true
+							return
+						}
+					}
 					{
 						// signing is refused once FINGERPRINT is present; the refusal must not disturb the message
 						d := &stun.Message{Raw: exactSlice(signed, 40)}
@@ -328,6 +357,50 @@ func init() {
 					report(mut, good, "nearmiss")
 				}
 			}
+			// values a "compatible" checker could take for the right one: CRCs over plausible other spans
+			for bi, setters := range [][]stun.Setter{
+				{stun.BindingRequest},
+				{stun.BindingSuccess, stun.NewSoftware("alt")},
+				{stun.BindingRequest, stun.NewUsername("u"), stun.NewShortTermIntegrity("pw")},
+				{stun.BindingError, stun.NewRealm("0123456789abcdef"), stun.NewNonce("n")},
+			} {
+				if !c.Mine(int64(bi)) {
+					continue
+				}
+				b := new(stun.Message)
+				_ = b.Build(append([]stun.Setter{stun.NewTransactionIDSetter(tid)}, setters...)...)
+				pre := append([]byte(nil), b.Raw...)
+				_ = stun.Fingerprint.AddTo(b)
+				good := append([]byte(nil), b.Raw...)
+				n := len(good)
+				right := uint32(good[n-4])<<24 | uint32(good[n-3])<<16 | uint32(good[n-2])<<8 | uint32(good[n-1])
+				withLen := func(src []byte, l int) []byte {
+					s := append([]byte(nil), src...)
+					s[2], s[3] = byte(l>>8), byte(l)
+					return s
+				}
+				final := len(pre) - 20 + 8
+				alts := []uint32{
+					ref.Fingerprint(pre),                      // length not yet including the attribute
+					ref.Fingerprint(withLen(pre, final+8)),    // one attribute too many
+					ref.Fingerprint(withLen(pre, final-4)),    // header counted, value not
+					ref.Fingerprint(good[:n-4]),               // span including the attribute header
+					ref.Fingerprint(withLen(pre, final)[20:]), // without the message header
+					ref.Fingerprint(withLen(pre, 0)),          // length zeroed
+					ref.CRC32(withLen(pre, final)),            // no XOR
+					^ref.CRC32(withLen(pre, final)),
+					ref.CRC32(pre) ^ 0x5354554e ^ 0xFFFFFFFF,
+				}
+				for _, v := range alts {
+					if v == right {
+						continue
+					}
+					mut := append([]byte(nil), good...)
+					mut[n-4], mut[n-3], mut[n-2], mut[n-1] = byte(v>>24), byte(v>>16), byte(v>>8), byte(v)
+					c.DistinctBytes(mut)
+					report(mut, good, "alt-span")
+				}
+			}
 			// arbitrary decodable messages with FINGERPRINT attributes of length 0..8 at every position, 0/4/8 trailing bytes
 			var j int64
 			for n := 1; n <= 3; n++ {
@@ -410,6 +483,26 @@ func init() {
 				want := append(span, 0x80, 0x28, 0x00, 0x04, byte(v>>24), byte(v>>16), byte(v>>8), byte(v))
 				if !bytes.Equal(b.Raw, want) {
 					c.Violation("addto-wrong-value", "Fingerprint.AddTo differs from RFC 5389 s15.5 on a large message", k)
+				}
+				return
+			}
+			if strings.HasPrefix(k.Orig, "out-of-step:") {
+				d := new(stun.Message)
+				if _, err := d.Write(raw); err != nil {
+					return
+				}
+				if k.Orig == "out-of-step:0" {
+					d.TransactionID = [12]byte{0xEE, 0xEE, 0xEE, 0xEE, 0xEE, 0xEE, 0xEE, 0xEE, 0xEE, 0xEE, 0xEE, 0xEE}
+					d.Type = stun.BindingError
+				}
+				_ = stun.Fingerprint.AddTo(d)
+				sp := append([]byte(nil), raw...)
+				l := len(raw) - 20 + 8
+				sp[2], sp[3] = byte(l>>8), byte(l)
+				cv := ref.Fingerprint(sp)
+				want := append(sp, 0x80, 0x28, 0x00, 0x04, byte(cv>>24), byte(cv>>16), byte(cv>>8), byte(cv))
+				if !bytes.Equal(d.Raw, want) {
+					c.Violation("addto-wrong-value/fields-out-of-step", "Fingerprint.AddTo with struct fields out of step with the bytes", k)
 				}
 				return
 			}
